@@ -71,6 +71,25 @@ Proof.
   rewrite (H x) by auto. apply IH. auto.
 Qed.
 
+Lemma filter_filter_absorb : forall {A} (p q : A -> bool) l,
+  (forall x, In x l -> p x = true -> q x = true) -> filter p (filter q l) = filter p l.
+Proof.
+  induction l as [|x t IH]; cbn; intros H; [reflexivity|].
+  destruct (q x) eqn:Q; cbn.
+  - destruct (p x); [f_equal|]; apply IH; auto.
+  - destruct (p x) eqn:P; [|apply IH; auto].
+    rewrite (H x) in Q by auto. discriminate.
+Qed.
+
+Lemma NoDup_app_one : forall {A} (l : list A) x, NoDup l -> ~ In x l -> NoDup (l ++ [x]).
+Proof.
+  induction l as [|a t IH]; cbn; intros x Hnd Hn.
+  - constructor; [tauto|constructor].
+  - inversion Hnd; subst. constructor.
+    + rewrite in_app_iff. cbn. intros [H|[H|[]]]; [tauto|]. apply Hn. left. auto.
+    + apply IH; auto.
+Qed.
+
 Lemma NoDup_map_inj : forall {A B} (f : A -> B) l x y,
   NoDup (map f l) -> In x l -> In y l -> f x = f y -> x = y.
 Proof.
@@ -181,6 +200,14 @@ Section AList.
   Proof.
     induction l as [|[k x] t IH]; intros b v; cbn; [reflexivity|].
     destruct (k =? b); [discriminate|]. intros H. f_equal. auto.
+  Qed.
+
+  Lemma aset_same : forall l b v, aget b l = Some v -> aset b v l = l.
+  Proof.
+    induction l as [|[k x] t IH]; intros b v; cbn; [discriminate|].
+    destruct (k =? b) eqn:E; intros H.
+    - inversion H; subst. f_equal. f_equal. lia.
+    - f_equal. auto.
   Qed.
 
   Lemma adel_absent : forall l b, aget b l = None -> adel b l = l.
